@@ -1773,6 +1773,18 @@ func (c *Ctx) runNP(r *Report, rule string, scope map[*ssa.Function]bool, allow 
 					break
 				}
 			}
+			if !allowed && c.isNew(s.fn) {
+				// code moved out of a function into a helper takes the function's reviewed exceptions with it
+				for _, o := range c.ownerNames(s.fn) {
+					for _, a := range allow {
+						if !allowed && a.Func == o && strings.HasPrefix(s.construct, a.Construct) && a.used < a.Max {
+							a.used++
+							r.Allow(rule, fname, s.construct, c.ipos(s.in), a.Reason+" (exception reviewed for "+o+", from which this helper was extracted)")
+							allowed = true
+						}
+					}
+				}
+			}
 			if !allowed {
 				r.Fail(rule, fname, s.construct, c.ipos(s.in), res.why)
 			}
